@@ -132,7 +132,12 @@ func cmdVerify(args []string) (code int) {
 		// thorough: branch-level vacuity covers as well (reported as notes and in the evidence; see tools/vacuity_selftest.sh)
 		coverReturns = true
 	}
-	workdir := filepath.Join(*verif, "work", "smt", *prop)
+	// one scratch directory per process: two runs of the same property at once (a check and a seeded run, say) must not
+	// delete each other's query files (that showed as solver "error" results); --dump keeps the stable name
+	workdir := filepath.Join(*verif, "work", "smt", fmt.Sprintf("%s-%d", *prop, os.Getpid()))
+	if *dump {
+		workdir = filepath.Join(*verif, "work", "smt", *prop)
+	}
 	os.RemoveAll(workdir)
 	os.MkdirAll(workdir, 0o755)
 	if !*dump {
